@@ -477,8 +477,8 @@ func TestCheck(t *testing.T) {
 	defer r.Finish()
 	part := os.Getenv("VERIF_C16_PART") // "" = seq + conc, "race" = the concurrent workload only (built with -race)
 	r.SetRule("seq: seed-determined histories of 10..40 ops from {resolve(name), resolve(name) with the clock stepping while the n-th upstream query is in flight, advance clock (0, 1 s, to TTL-1 / TTL / TTL+1 of a cached answer, 300+-1, hours), " +
-		"change zone data (every record identifies its data version; TTL sets may change; CNAMEs are repointed or get another TTL; unrelated extra records appear in answers), upstream fails with SERVFAIL / HTTP 400 / recovers, SetCacheSize(0|1..4|32|64)} over 1..4 bare host names of which 0..2 are CNAME aliases (chains of one or two CNAMEs, each with its own TTL from {0,1,2,5,30,60,300,3600}, smaller and larger than the TTLs at the chain end), RRSets of 0..3 records with per-record TTLs from {0,1,2,5,30,60,300,3600} incl. mixed {0,k} sets in every order; " +
-		"conc: cases of 3..6 phases, 2..16 goroutines x 1..3 Resolve+Targets calls on 1..3 names; phase kinds plain / upstream queries held then released / held + zone change / held + failure blip / zone change while running / whole phase failing; clock steps at barriers to TTL-1 / TTL / TTL+1; " +
+		"change zone data (every record identifies its data version; TTL sets may change; CNAMEs are repointed or get another TTL; unrelated extra records appear in answers), upstream fails with SERVFAIL / HTTP 400 / recovers, a response code outside 1..5 (6, 9, 10, extended 16, 23; 5 as control) is forced on one name of a chain for one qtype or all until cleared, SetCacheSize(0|1..4|32|64)} over 1..4 bare host names of which 0..2 are CNAME aliases (chains of one or two CNAMEs, each with its own TTL from {0,1,2,5,30,60,300,3600}, smaller and larger than the TTLs at the chain end), RRSets of 0..3 records with per-record TTLs from {0,1,2,5,30,60,300,3600} incl. mixed {0,k} sets in every order; " +
+		"conc: cases of 3..6 phases, 2..16 goroutines x 1..3 Resolve+Targets calls on 1..3 names; every name has 2..4 service-mode HTTPS records with distinct priorities listed in the zone OUT of priority order (ech = name, version, priority); phase kinds plain / upstream queries held then released / held + zone change / held + failure blip / zone change while running / whole phase failing (switch or forced response code 9 / 16 / 23) / 100 herd rounds (all answers of one name just expired, all goroutines ask at once; 10 rounds in the race stage); clock steps at barriers to TTL-1 / TTL / TTL+1; " +
 		"distinct = distinct sets of (decision class, reason) per history resp. (phase kinds, goroutines, overlap degree) per concurrent case")
 	r.Assume("internal/dohfake serves exactly the installed data version and logs every query it answers; zone changes are atomic (server lock)",
 		"the resolver reads the package clock only on the goroutine that called Resolve (clock reads from other goroutines are counted and make the run inconclusive)",
@@ -528,6 +528,14 @@ func TestCheck(t *testing.T) {
 			r.Floor("seq_clock_steps_during_query", int64(nSeq)/5)
 			r.Floor("seq_empty_answers", int64(nSeq)/2)
 			r.Floor("seq_lookups_through_cname", int64(nSeq)*4)
+			r.Floor("seq_rcode_episodes", int64(nSeq)/3)
+			r.Floor("seq_failed_resolves_rcode_header-6-15", int64(nSeq)/4)
+			r.Floor("seq_failed_resolves_rcode_extended-16-and-up", int64(nSeq)/5)
+			r.Floor("seq_refetched_after_rcode_failure", int64(nSeq)/8)
+			r.Floor("seq_results_checked_as_sorted_copy_of_unsorted_answer", int64(nSeq)*2)
+			r.Floor("conc_failure_windows_rcode_outside_1_5", int64(nConc)/4)
+			r.Floor("conc_phases_herd", int64(nConc)*100)
+			r.Floor("conc_results_checked_as_sorted_copy_of_unsorted_answer", int64(nConc)*500)
 			r.Floor("seq_lookups_cname_ttl_below_rrset_ttl", int64(nSeq)/2)
 			r.Floor("seq_lookups_cname_ttl_above_rrset_ttl", int64(nSeq)/2)
 			r.Floor("seq_lookups_cname_ttl0", int64(nSeq)/6)
@@ -578,6 +586,8 @@ func TestCheck(t *testing.T) {
 			r.Floor("https_records_with_spare_alpn_capacity", int64(nRace)*10)
 			r.Floor("own_copy_mutations", int64(nRace)*20)
 			r.Floor("conc_partitions_linearizable", int64(nRace)*3)
+			r.Floor("conc_phases_herd", int64(nRace)*10)
+			r.Floor("conc_results_checked_as_sorted_copy_of_unsorted_answer", int64(nRace)*100)
 			r.Floor("conc_held_queries", int64(nRace)*3/2)
 			r.Floor("conc_error_calls", int64(nRace))
 		}
